@@ -26,7 +26,14 @@ fn name(i: usize) -> String {
 /// programs that press on one cap each
 fn pressure_program(rng: &mut Rng) -> Vec<String> {
     let mut l = vec![];
-    match rng.below(13) {
+    match rng.below(14) {
+        13 => {
+            // a user-function call with exactly 31 / 32 frames already on the shared stack
+            let d = rng.pick(&[32, 33]);
+            l.push("10 DEF FNC(J) = J + 1".into());
+            l.push(format!("20 C = C + 1 : IF C < {d} THEN GOSUB 20"));
+            l.push("30 PRINT FNC(1)".into());
+        }
         12 => {
             // more than 32 distinct inner loops abandoned one after the other by the outer NEXT / a new FOR:
             // at most two loops are ever open, so nothing may be refused
@@ -278,6 +285,16 @@ fn after_call(s: &mut Sess, op: &Op, call: &crate::sess::Call, m: &mut Mon, ctx:
         }
         if t == "GOSUB" && p.stack.len() == 32 && p.line_tokens.get(p.location.1 + 1).map(|x| x.parse::<f64>().is_ok()).unwrap_or(false) {
             m.pending_attempt = Some((format!("GOSUB with 32 frames on the stack (line {:?})", p.location.0), "OutOfMemory(StackOverflow)"));
+        } else if t == "PRINT"
+            && p.stack.len() == 32
+            && tok(1).map(|x| x.starts_with("FN")).unwrap_or(false)
+            && tok(2) == Some("(")
+            && tok(3).map(|x| x.parse::<f64>().is_ok()).unwrap_or(false)
+            && tok(4) == Some(")")
+            && matches!(tok(5), None | Some(":"))
+            && p.functions.iter().any(|f| Some(f.name.as_str()) == tok(1) && f.arguments.len() == 1 && !f.arguments[0].ends_with('$'))
+        {
+            m.pending_attempt = Some((format!("call of {} with 32 frames on the stack (line {:?})", tok(1).unwrap_or(""), p.location.0), "OutOfMemory(StackOverflow)"));
         } else if t == "DIM" {
             // DIM name ( n1 , n2 ... ) with plain numerals whose product of (n+1) exceeds 10000, name not yet an array
             let toks = &p.line_tokens[p.location.1..];
